@@ -1,1 +1,75 @@
-// harness bodies compiled inside quinn-proto/src/congestion/cubic.rs (feature __verif-hooks)
+// Harness bodies for quinn-proto/src/congestion/cubic.rs.
+
+const V62: u64 = 1 << 62;
+
+/// C12.a: Cubic loss / spurious-loss / MTU events and slow-start acks from any state with
+/// window >= 2 * mtu (and the saved pre-congestion state, if any, likewise): afterwards
+/// window() >= 2 * current_mtu.  The congestion-avoidance branch of on_ack (f64 cbrt / powi) is
+/// outside the claim; it can only grow the window.
+pub fn step(window: u64, ssthresh: u64, cwnd_inc: u64, mtu: u16, has_rec: bool, recovery_secs: u32, w_max_q: u32,
+            has_prior: bool, prior_window: u64, op: u8, now_secs: u32, sent_secs: u32, bytes: u32, persistent: bool, ecn: bool, new_mtu: u16) -> u32 {
+    if mtu < 1200 || new_mtu < 1200 || window >= 1 << 40 || window < 2 * mtu as u64 || cwnd_inc >= 1 << 40 || op > 3 {
+        return 0;
+    }
+    // a saved state was a live state when it was saved (its mtu was not larger than the current one
+    // unless the window was raised with it): reachable saved windows satisfy the same bound
+    if has_prior && (prior_window >= 1 << 40 || prior_window < 2 * 1200) {
+        return 0;
+    }
+    let (Some(now), Some(sent), Some(rec)) = (crate::verif::mk_instant(now_secs, 0), crate::verif::mk_instant(sent_secs, 0), crate::verif::mk_instant(recovery_secs, 0)) else { return 0 };
+    let mk = |w: u64| State { k: 0.0, w_max: w_max_q as f64, cwnd_inc, window: w, ssthresh, recovery_start_time: if has_rec { Some(rec) } else { None } };
+    let mut c = Cubic {
+        config: Arc::new(CubicConfig::default()),
+        current_mtu: mtu as u64,
+        state: mk(window),
+        pre_congestion_state: if has_prior { Some(mk(prior_window)) } else { None },
+    };
+    let rtt = RttEstimator::new(Duration::from_millis(100));
+    let f;
+    match op {
+        0 => {
+            // slow start only
+            if !(window < ssthresh) {
+                core::mem::forget(c);
+                return 0;
+            }
+            c.on_ack(now, sent, bytes as u64, false, &rtt);
+            assert!(c.state.window >= window);
+            f = 1;
+        }
+        1 => {
+            c.on_congestion_event(now, sent, persistent, ecn, bytes as u64);
+            let ignored = has_rec && sent_secs <= recovery_secs;
+            if ignored {
+                assert!(c.state.window == window);
+            } else {
+                assert!(c.state.window <= window);
+                assert!(c.state.ssthresh >= 2 * mtu as u64);
+                if persistent {
+                    assert!(c.state.window == 2 * mtu as u64);
+                }
+                if !ecn {
+                    assert!(matches!(&c.pre_congestion_state, Some(p) if p.window == window));
+                }
+            }
+            f = 2;
+        }
+        2 => {
+            c.on_mtu_update(new_mtu);
+            assert!(c.state.window == window.max(2 * new_mtu as u64));
+            f = 4;
+        }
+        _ => {
+            c.on_spurious_congestion_event();
+            assert!(c.pre_congestion_state.is_none());
+            assert!(c.state.window >= window);
+            if has_prior && prior_window > window {
+                assert!(c.state.window == prior_window);
+            }
+            f = 8;
+        }
+    }
+    assert!(c.window() >= 2 * c.current_mtu);
+    core::mem::forget(c);
+    f
+}
